@@ -65,6 +65,10 @@ def gen_cases(tier, seed):
                                  FAMILY.get(terms[0]['itmd'],
                                             terms[0]['itmd'])])
             terms.append({'itmd': name, 'iseed': r.randrange(1 << 30),
+                          'denom': r.choice([0, 0, 0, 1, 2])
+                          if nterms == 1 and not bucket else 0,
+                          'twice': nterms == 1 and not bucket
+                          and r.random() < 0.12,
                           'pref': r.choice(['1', '-1', '2', '1/2', '-1/3']),
                           # several terms: all indices linked (same targets)
                           'nlink': r.random() if nterms == 1 else 1.0,
@@ -76,6 +80,16 @@ def gen_cases(tier, seed):
                       'once': r.random() < 0.3, 'pseed': r.randrange(1 << 30),
                       'mseed': seed * 1000 + (k % 3), 'tier': tier,
                       'cost': 30, 'timeout': 1500})
+    # fixed exhibit of the open finding F23 (independent of the random stream):
+    # 2 t2_2 Y - t2_2 Y' with antisymmetric remainders, one expanded term dropped
+    cases.append({'id': f'C11-{tier[0]}{seed}-F23-exhibit', 'kind': 'gen',
+                  'terms': [{'itmd': 't2_2', 'iseed': 874621962, 'denom': 0,
+                             'pref': '2', 'nlink': 1.0, 'free_ok': False},
+                            {'itmd': 't2_2', 'iseed': 760576781, 'denom': 0,
+                             'pref': '-1', 'nlink': 1.0, 'free_ok': False}],
+                  'request': 'same', 'perturb': 'drop', 'once': False,
+                  'pseed': 608748641, 'mseed': 3002, 'tier': tier, 'cost': 30,
+                  'timeout': 1500})
     for name in ['repo_t2_1', 'repo_long_complete', 'repo_long_mixed']:
         cases.append({'id': f'C11-{tier[0]}{seed}-{name}', 'kind': 'repo',
                       'name': name, 'mseed': seed * 1000, 'tier': tier,
@@ -183,7 +197,38 @@ def build_term(tdesc):
     else:
         rem = NonSymmetricTensor('x', tuple(get_symbols(link))) if link \
             else S.One
-    return ten * rem * sympify(tdesc['pref'])
+    if tdesc.get('twice'):
+        # the same intermediate a second time in the term (other index names):
+        # both expansions need their own contracted indices
+        idx2 = []
+        for d in it.default_idx:
+            pool = OCC if d[0] in 'ijklmno' else VIRT
+            free = [s for s in pool if s not in idx and s not in idx2]
+            if not free:
+                idx2 = None
+                break
+            idx2.append(r.choice(free))
+        if idx2:
+            ten = ten * it.tensor(indices=idx2, return_sympy=True)
+            both = idx + idx2
+            k2 = r.randint(len(idx2) // 2, len(both))
+            rem = rem * NonSymmetricTensor('y', tuple(get_symbols(
+                r.sample(both, k2))))
+    extra = S.One
+    if tdesc.get('denom'):
+        # an additional orbital-energy denominator over the intermediate's own
+        # indices: after factoring, part of the term's denominator remains
+        from adcgen.tensor_names import tensor_names
+        from sympy import Add, Pow
+        occ_i = [s for s in idx if s[0] in 'ijklmno']
+        virt_i = [s for s in idx if s[0] in 'abcdefgh']
+        if occ_i and virt_i:
+            br = Add(*[NonSymmetricTensor(tensor_names.orb_energy, (q,))
+                       for q in get_symbols(occ_i)]) - \
+                Add(*[NonSymmetricTensor(tensor_names.orb_energy, (q,))
+                      for q in get_symbols(virt_i)])
+            extra = Pow(br, -int(tdesc['denom']))
+    return ten * rem * extra * sympify(tdesc['pref'])
 
 
 def request_for(case, names):
@@ -257,6 +302,16 @@ def run_case(case, res):
         res.nontrivial = True
     observed['expanded_terms'] = len(X)
     # factor (on the fully expanded, possibly perturbed expression) -----------
+    if any(t.get('twice') for t in case['terms']):
+        # products of two expansions: both expansion modes are compared; the
+        # reduction of such products takes minutes and is left out
+        res.count('product_of_two_expansions')
+        X2 = lib_call(E.copy().expand_intermediates,
+                      fully_expand=bool(case['once'])).expand()
+        if not np.array_equal(v0, ev.value(X2.sympy, tg)):
+            res.violation(f'expand_intermediates(fully_expand={case["once"]}) '
+                          f'changed the value: {E}')
+        return
     Xf = lib_call(E.copy().expand_intermediates).expand()
     xt = list(tm.terms_of(Xf.sympy))
     pr = rng_for(case['pseed'], 'perturb')
@@ -295,6 +350,11 @@ def run_case(case, res):
             res.violation(f'expand(factor(.)) is not the identity in value for '
                           f'{E} (request {kw})', tags)
             return
+    return _reduce(case, res, E, v0, ev, tg, observed)
+
+
+def _reduce(case, res, E, v0, ev, tg, observed):
+    from adcgen import reduce_expr
     # reduce ------------------------------------------------------------------
     try:
         R = lib_call(reduce_expr, E.copy(),
